@@ -5,6 +5,7 @@ correctly rounded, clamp harmless).  Correspondence: bit patterns from
 parse_double_from_buffer and from whole reads, real code vs model.  Oracle: Python's
 float(literal), which is correctly rounded."""
 import json
+import re
 import struct
 
 from .. import common as C
@@ -117,6 +118,36 @@ def run(tier):
                             {"kind": "line", "config": cfg, "line": lines[i], "literal": lits[i], "expected": want[i], "observed": a})
         for i in diffs[:5]:
             rep.broken_obligation("correspondence/converter", "model %r vs code %r on %s" % (model[i], impl[i], lits[i][:80]), False)
+        # experimental flag: underscores between digits do not change the value (fraction and exponent included)
+        if cfg in ("exp", "both"):
+            udocs, uwant = [], []
+            for sl in lits[::7] + ["3.141592", "1000.0001", "0.50", "6.02214076e23", "123456.789012e-10", "1.0e100", "9007199254740993.0"]:
+                m = re.match(r"^([+-]?)([0-9]+)(?:\.([0-9]*))?(?:([eE][+-]?)([0-9]+))?$", sl)
+                if not m:
+                    continue
+                sg, ip, fr, ee, ex = m.groups()
+
+                def us(d):
+                    if d is None or len(d) < 2:
+                        return d
+                    k = rng.randrange(1, len(d))
+                    return d[:k] + rng.choice(["_", "__"]) + d[k:]
+                t = sg + us(ip) + ("." + us(fr) if fr is not None else "") + ((ee + us(ex)) if ee else "")
+                if "_" in t and ("." in t or "e" in t.lower()):
+                    udocs.append(t.encode())
+                    uwant.append(bits(sl))
+            ui, um, ud, ucr, _ = K.correspond(cfg, K.read_lines(udocs))
+            rep.count("underscore-floats/" + cfg, len(udocs))
+            for i in ud[:3]:
+                rep.broken_obligation("correspondence/underscore-float", "model %r vs code %r on %r" % (um[i], ui[i], udocs[i]), False)
+            for i, a in enumerate(ui):
+                if a is None:
+                    continue
+                mm = re.match(r"^ok \(float \d+ \d+ ([0-9a-f]{16})\)$", a)
+                if not mm or mm.group(1) != uwant[i]:
+                    found = True
+                    rep.finding("rounding/underscore", "literal %s read as %s, its value is %s" % (udocs[i].decode(), a[:80], uwant[i]),
+                                {"kind": "read", "config": cfg, "input_hex": C.hexs(udocs[i]), "literal": udocs[i].decode(), "expected": uwant[i], "observed": a[:200]})
         # whole reads (sign handling, terminators) and equal-value spellings
         docs = [s.encode() for s in lits[:: (1 if tier == "thorough" else 3)]]
         rl = K.read_lines(docs)
